@@ -6,6 +6,8 @@ D=/var/tmp/mut-$$
 rm -rf $D; mkdir -p $D/repo $D/out
 (cd /repo && tar --exclude=target --exclude=.git -cf - .) | tar -x -C $D/repo
 (cd $D/repo && patch -p1 -s < "$PATCH") || { echo "patch does not apply"; rm -rf $D; exit 3; }
+# mtimes must be newer than any cached build (cargo freshness is mtime-based)
+find $D/repo -type f -exec touch {} +
 VERIF_REPO=$D/repo VERIF_OUT=$D/out /verif/check $PID "$@"
 rc=$?
 echo "mutcheck: property=$PID patch=$PATCH exit=$rc"
